@@ -1457,7 +1457,10 @@ enhance(vbi_decoder *vbi,
 	es.active_column = 0;
 	es.active_row = 0;
 
-	es.acp = &pg->text[(inv_row + 0) * EXT_COLUMNS];
+	/* An object invoked near the bottom of the page can address rows
+	   below it. enhance_flush() does not write then, but we must not
+	   form such a pointer either. */
+	es.acp = (inv_row < ROWS) ? &pg->text[(inv_row + 0) * EXT_COLUMNS] : pg->text;
 
 	offset_column = 0;
 	offset_row = 0;
@@ -1582,7 +1585,8 @@ enhance(vbi_decoder *vbi,
 				es.active_row = row;
 				es.active_column = column;
 
-				es.acp = &pg->text[(es.inv_row + es.active_row) * EXT_COLUMNS];
+				if (es.inv_row + es.active_row < ROWS)
+					es.acp = &pg->text[(es.inv_row + es.active_row) * EXT_COLUMNS];
 
 				break;
 
